@@ -32,6 +32,8 @@ CLAIMS = {
          "The collector is enabled at every state of the bounded model; in the real code all reads of all open transactions are compared before/after and for the rest of the behaviour, and a disagreement that disappears when the GC steps are left out is attributed to the collector.", "6 C09"),
  "C11": ("the L1 behaviours emitted by TLC are replayed through external.Open against the real gRPC server and through the inline client; a disagreement only the external run shows is a C11 violation",
          "All behaviours of the C01/C02/C03/C13 families up to the stated depth are executed through both clients (contents across the 2048-byte chunk boundary, all four levels, late operations, server restarts) and compared step by step with the L0 promise by errors.Is classes and byte equality.", "6 C11"),
+ "C12": ("TLC on AsyncRW.tla (one action per segment between two gates of read_writer.go; safety Concatenation, no stuck state, liveness CloseReturns) + every emitted schedule replayed step by step on the real readWriter + inline Create end to end under controlled schedules",
+         "All schedules of writer and storing goroutine for 16 write patterns (sizes 0..3, empty writes first/middle/last) x reader buffer sizes are enumerated by TLC and executed on the real pipe through its gates with zero drift; a hang is recognised from goroutine wait states (all actors blocked), never by time-out; Create with sizes 0, 1, 32 KiB +-1 runs under the scheduler and is linearised.", "6 C12"),
  "C13": ("TLC action property LateIsIdentity on FsDb.tla with late operations enabled for every ended handle + replay with an RU observer and reopen",
          "Every operation through ended handles is tried at every state of the bounded model; the real result classes and all other readers' reads are compared with the promise. The recorded defect (late writes accepted) is modelled as the named deviation 'latewrite'.", "6 C13"),
  "C14": ("TLC invariant Reclaimed on FsDb.tla + replay of behaviours ending in quiescence with a walk of the storage roots",
